@@ -8,7 +8,7 @@
 EXTENDS Base, AuthTable
 
 FreeKinds == {"free", "signer", "payer", "new"}
-FrozenOps == {"deposit", "withdraw", "close_balance", "liquidate", "withdraw_emissions", "kamino_deposit", "kamino_withdraw", "drift_deposit", "drift_withdraw"}
+FrozenOps == {"deposit", "withdraw", "close_balance", "liquidate", "withdraw_emissions", "kamino_deposit", "kamino_withdraw", "drift_deposit", "drift_withdraw", "solend_deposit", "solend_withdraw"}
 Holders(op) == {AuthRoles[AuthOps[op].role]} \cup {AuthRoles[AuthOps[op].also[i]] : i \in DOMAIN AuthOps[op].also}
 Entitled(op, id, mode) ==
   IF AuthOps[op].role = "anyone" THEN TRUE
